@@ -37,7 +37,7 @@ type TestSpec struct {
 }
 
 type PTSpec struct {
-	Err    string `json:"err,omitempty"`    // "" | "err" | "issue"
+	Err    string `json:"err,omitempty"`    // "" | "err" | "issue" | "wrapped" | "sentinel" | "byhand"
 	Mutate string `json:"mutate,omitempty"` // "" | "elem0" | "append" | "upper" | "inc"
 }
 
@@ -59,6 +59,7 @@ type Node struct {
 	CT      string     `json:"ct,omitempty"`       // custom: "string"|"int"; pre: "any_str"|"str_list"|"rec_pass"
 	ReqOpt  *TestSpec  `json:"req_opt,omitempty"`  // options passed to Required()/NotNil(): Msg, Code, Path
 	Extra   bool       `json:"extra,omitempty"`    // struct: the destination type has two more fields than the schema describes
+	Embed   bool       `json:"embed,omitempty"`    // struct: the destination type embeds a struct whose fields are shadowed by the first two schema fields
 	OptCall bool       `json:"opt_call,omitempty"` // optional node built as .Required().Optional()
 	W       string     `json:"w,omitempty"`        // width variant: int -> "64" (Int64 / int64), float -> "32" (Float32 / float32)
 	Coercer string     `json:"coercer,omitempty"`  // z.WithCoercer on a primitive: "const" (always CoVal) | "fail" (always an error)
@@ -240,6 +241,16 @@ func typeOf(n *Node, rev bool) reflect.Type {
 			}
 			fs = append(fs, reflect.StructField{Name: GoName(f.Key), Type: typeOf(f.N, rev), Tag: reflect.StructTag(tag.String())})
 		}
+		if n.Embed && len(fs) > 0 {
+			// Go's rule: the shallowest field of a name is the field of that name. The embedded struct comes first and holds
+			// fields with the names (and other zog tags) of the first two schema fields: they are hidden, and none of the library's business
+			var in []reflect.StructField
+			for i := 0; i < len(fs) && i < 2; i++ {
+				in = append(in, reflect.StructField{Name: fs[i].Name, Type: fs[i].Type, Tag: reflect.StructTag(fmt.Sprintf(`zog:"zz_hidden_%d"`, i))})
+			}
+			in = append(in, reflect.StructField{Name: "ZzAuditID", Type: reflect.TypeOf(int(0))})
+			fs = append([]reflect.StructField{{Name: "ZzEmbedded", Type: reflect.StructOf(in), Anonymous: true}}, fs...)
+		}
 		if n.Extra {
 			// the destination may have fields the schema does not describe: they are none of the library's business
 			fs = append(fs, reflect.StructField{Name: "ZzNotInSchema", Type: reflect.TypeOf(map[string]int(nil))},
@@ -359,6 +370,31 @@ type Engine struct {
 	Cur   func() *OpRec // recorder of the operation the running task is in
 	yield func(string)
 	Owned []Owned // harness-side handles on values handed to the schema (defaults, OneOf lists, ...)
+	// long-lived issues of the caller ("errors as values": var errTaken = &z.ZogIssue{...}) that callbacks return again
+	// and again; they are complete (code, message, type), so the library has nothing to add to them - and they stay the caller's
+	Sentinels []*OwnedIssue
+}
+
+type OwnedIssue struct {
+	Iss  *z.ZogIssue
+	Orig string
+	Node int
+}
+
+func (e *Engine) sentinel(n *Node, idx int) *z.ZogIssue {
+	iss := &z.ZogIssue{Code: "pt_sentinel", Message: fmt.Sprintf("pt-sentinel n%d#%d", n.ID, idx), Dtype: "string"}
+	e.Sentinels = append(e.Sentinels, &OwnedIssue{Iss: iss, Orig: fmt.Sprintf("%+v", *iss), Node: n.ID})
+	return iss
+}
+
+// SentinelsChanged reports the first caller-owned issue that no longer is what the caller made it.
+func (e *Engine) SentinelsChanged() string {
+	for _, s := range e.Sentinels {
+		if now := fmt.Sprintf("%+v", *s.Iss); now != s.Orig {
+			return fmt.Sprintf("the issue object a callback of node %d returns was %s and now is %s", s.Node, s.Orig, now)
+		}
+	}
+	return ""
 }
 
 // Owned is a value the schema was given at construction. Slices share their
@@ -547,6 +583,10 @@ func (e *Engine) tfuncTest(n *Node, idx int, t TestSpec) z.Test {
 }
 
 func (e *Engine) postTransform(n *Node, idx int, p PTSpec) z.PostTransform {
+	var sentinel *z.ZogIssue
+	if p.Err == "sentinel" {
+		sentinel = e.sentinel(n, idx)
+	}
 	return func(ptr any, ctx z.Ctx) error {
 		rec := e.record(n, "pt", idx, ptr, ctx, true)
 		mutate(p.Mutate, ptr)
@@ -562,6 +602,15 @@ func (e *Engine) postTransform(n *Node, idx int, p PTSpec) z.PostTransform {
 			return fmt.Errorf("pt-error n%d#%d", n.ID, idx)
 		case "issue":
 			return (&z.ZogIssue{}).SetCode("pt_issue").SetMessage(fmt.Sprintf("pt-issue n%d#%d", n.ID, idx))
+		case "sentinel":
+			return sentinel
+		case "byhand":
+			// a transform may also report by hand and return nil: the issue is one of its node (ctx.Issue() is pre-filled with
+			// the node's path and type); on a catching node the report would be the node's own failure, so none is made there
+			if n.Catch == nil {
+				ctx.AddIssue(ctx.Issue().SetCode("pt_byhand").SetMessage(fmt.Sprintf("pt-byhand n%d#%d", n.ID, idx)))
+			}
+			return nil
 		case "wrapped":
 			// an ordinary error that merely has a ZogIssue somewhere in its chain is still an ordinary error
 			inner := (&z.ZogIssue{}).SetCode("inner_issue").SetPath("elsewhere").SetMessage("inner")
